@@ -14,6 +14,8 @@ import (
 
 	"golang.org/x/tools/go/packages"
 	"golang.org/x/tools/go/ssa"
+
+	"kverif/internal/norm"
 )
 
 const Module = "github.com/koordinator-sh/koordinator"
@@ -35,6 +37,12 @@ type Program struct {
 	Tolerated []string
 	// fileOf maps token.File name to the syntax tree
 	files map[string]*ast.File
+	// normalisation (package norm): helpers unknown on the reference tree that were inlined / left alone
+	NewFuncs   []string
+	Inlined    []string
+	Skipped    []string
+	Notes      []string
+	Normalized map[string][]byte
 }
 
 // DefaultPatterns covers what the real build covers.
@@ -270,4 +278,62 @@ func FuncName(fn *ssa.Function) string {
 	s := fn.String()
 	s = strings.ReplaceAll(s, Module+"/", "")
 	return s
+}
+
+// LoadNormalized loads the tree and, when it contains functions that do not exist on the reference tree (knownPath),
+// inlines those helpers into their in-package callers (package norm) and reloads, bottom-up, at most four times.
+// On the reference tree this is exactly Load.
+func LoadNormalized(repo string, patterns []string, overlay map[string][]byte, knownPath string) (*Program, error) {
+	t0 := time.Now()
+	p, err := Load(repo, patterns, overlay)
+	if err != nil {
+		return nil, err
+	}
+	known, kerr := norm.LoadKnown(knownPath)
+	if kerr != nil || len(known) == 0 || os.Getenv("KVERIF_NO_NORMALIZE") != "" {
+		p.Notes = append(p.Notes, "normalisation off (no reference function list)")
+		return p, nil
+	}
+	cur := map[string][]byte{}
+	for k, v := range overlay {
+		cur[k] = v
+	}
+	for pass := 1; pass <= 4; pass++ {
+		res := norm.Normalize(p.Fset, p.Pkgs, known, cur)
+		if pass == 1 {
+			p.NewFuncs = res.NewFuncs
+		}
+		if len(res.Overlay) == 0 {
+			p.Skipped = append(p.Skipped, res.Skipped...)
+			break
+		}
+		next := map[string][]byte{}
+		for k, v := range cur {
+			next[k] = v
+		}
+		for k, v := range res.Overlay {
+			next[k] = v
+		}
+		q, err := Load(repo, patterns, next)
+		if err != nil {
+			// the rewritten source does not type-check: keep the last good program and say so
+			p.Notes = append(p.Notes, fmt.Sprintf("normalisation pass %d abandoned (rewritten source does not load): %v", pass, firstLine(err.Error())))
+			break
+		}
+		q.Inlined = append(p.Inlined, res.Inlined...)
+		q.Skipped = p.Skipped
+		q.NewFuncs = p.NewFuncs
+		q.Notes = p.Notes
+		q.Normalized = next
+		p, cur = q, next
+	}
+	p.LoadTime = time.Since(t0)
+	return p, nil
+}
+
+func firstLine(s string) string {
+	if len(s) > 600 {
+		s = s[:600]
+	}
+	return strings.ReplaceAll(s, "\n", " | ")
 }
